@@ -83,19 +83,113 @@ class Recorder:
         self.violations = []       # dicts: sig, msg
         self._h = hashlib.sha1()
         self.checks = 0
+        self._prev_out = None
+        self._hy_seen = set()
 
     # -- implementation calls ---------------------------------------------------------------
-    def call(self, f, *a, sig=None, **k):
-        """Call the implementation; an exception is an outcome (and a violation), never a crash."""
+    def call(self, f, *a, sig=None, hygiene=True, **k):
+        """Call the implementation; an exception is an outcome (and a violation), never a crash.
+
+        Call hygiene (DESIGN 3.7), applied to every call unless hygiene=False:
+          (a) ndarray arguments are snapshotted and must be unchanged afterwards;
+          (b) the ndarray result(s) of the previous call of this case must not change during this call
+              (results aliased to internal buffers / caches);
+          (c) config.precision must be what it was before the call;
+          (d) for the first call of every distinct (callable, argument shapes/dtypes) signature in this case the call is
+              repeated with every >=2-D ndarray argument in Fortran order, and with the argument buffers overwritten in
+              place by other content (identity-keyed caches); results must agree.
+        """
         self.evals += 1
+        name = getattr(f, '__qualname__', getattr(f, '__name__', repr(f)))
+        hy = hygiene and HYGIENE
+        if hy:
+            arrs = [v for v in list(a) + [v for kk, v in k.items() if kk not in OUT_ARGS] if isinstance(v, np.ndarray) and v.size]
+            snaps = [v.copy() for v in arrs]
+            rng_state = np.random.get_state()
+            prev = self._prev_out
+            prev_snaps = [(o, o.copy()) for o in prev[1]] if prev else []
+            prec0 = _precision()
         try:
-            return f(*a, **k)
+            out = f(*a, **k)
         except Exception as e:   # noqa
-            name = getattr(f, '__qualname__', getattr(f, '__name__', repr(f)))
             self.violation(sig or f'{name}:exception',
                            f'{name} raised {type(e).__name__}: {e}')
             self.outcomes.append('exception')
             return FAILED
+        if hy:
+            for v, s0 in zip(arrs, snaps):
+                if name.split('.')[-1] not in INPLACE_OK and not _same_array(v, s0):
+                    self.violation(f'{name}:hygiene:input-mutated', f'{name} modified an array argument of shape {v.shape} in place')
+            for o, s0 in prev_snaps:
+                if not _same_array(o, s0):
+                    self.violation(f'{prev[0]}:hygiene:result-changed-by-later-call',
+                                   f'an array returned by {prev[0]} was modified during a later call of {name} (result aliased to internal state)')
+            if _precision() != prec0:
+                self.violation(f'{name}:hygiene:precision-left-modified', f'{name} left config.precision changed')
+                _set_precision(prec0)
+            outs = _result_arrays(out)
+            self._prev_out = (name, outs) if outs else None
+            if arrs and outs and '<lambda>' not in name and not any(kk in OUT_ARGS for kk in k):
+                key = (name, tuple((v.shape, str(v.dtype)) for v in arrs), tuple(sorted(k)))
+                if key not in self._hy_seen:
+                    self._hy_seen.add(key)
+                    after = np.random.get_state()
+                    try:
+                        self._hygiene_variants(f, a, k, out, name, rng_state)
+                    finally:
+                        np.random.set_state(after)
+        return out
+
+    def _hygiene_variants(self, f, a, k, out, name, rng_state):
+        ref = [o.copy() for o in _result_arrays(out)]
+        # the identical call again (same global RNG state): the answer depends on the arguments only
+        self.evals += 1
+        try:
+            np.random.set_state(rng_state)
+            rep = _result_arrays(f(*[v.copy() if isinstance(v, np.ndarray) else v for v in a],
+                                   **{kk: (v.copy() if isinstance(v, np.ndarray) else v) for kk, v in k.items()}))
+        except Exception as e:   # noqa
+            self.violation(f'{name}:hygiene:not-repeatable', f'{name} raised {type(e).__name__} when the identical call was repeated: {e}')
+            return
+        if not _close_lists(rep, ref):
+            self.violation(f'{name}:hygiene:not-repeatable', f'{name} gives a different result when the identical call is repeated')
+            return
+        # Fortran-ordered copies of every >= 2-D array argument
+        if any(isinstance(v, np.ndarray) and v.ndim >= 2 and v.size > 1 for v in list(a) + list(k.values())):
+            fa = [np.asfortranarray(v) if isinstance(v, np.ndarray) and v.ndim >= 2 else v for v in a]
+            fk = {kk: (np.asfortranarray(v) if isinstance(v, np.ndarray) and v.ndim >= 2 else v) for kk, v in k.items()}
+            self.evals += 1
+            try:
+                np.random.set_state(rng_state)
+                o2 = _result_arrays(f(*fa, **fk))
+                if not _close_lists(o2, ref):
+                    self.violation(f'{name}:hygiene:memory-layout', f'{name} gives a different result for Fortran-ordered copies of its array arguments')
+            except Exception as e:   # noqa
+                self.violation(f'{name}:hygiene:memory-layout', f'{name} raised {type(e).__name__} for Fortran-ordered array arguments: {e}')
+        # same buffers, new content: an identity-keyed cache would answer for the old content
+        fl = [v for v in list(a) + list(k.values()) if isinstance(v, np.ndarray) and v.ndim >= 2 and v.dtype.kind in 'fc' and v.size > 1 and v.flags.writeable]
+        if fl:
+            orig = [v.copy() for v in fl]
+            flipped = [np.ascontiguousarray(v[::-1, ...][..., ::-1]) for v in orig]
+            if any(not _same_array(x, y) for x, y in zip(orig, flipped)):
+                try:
+                    fresh_a = [(_swap(v, fl, flipped)) for v in a]
+                    fresh_k = {kk: _swap(v, fl, flipped) for kk, v in k.items()}
+                    self.evals += 2
+                    np.random.set_state(rng_state)
+                    want = [o.copy() for o in _result_arrays(f(*fresh_a, **fresh_k))]
+                    for v, nv in zip(fl, flipped):
+                        v[...] = nv
+                    np.random.set_state(rng_state)
+                    got = _result_arrays(f(*a, **k))
+                    if not _close_lists(got, want):
+                        self.violation(f'{name}:hygiene:stale-for-reused-buffer',
+                                       f'{name} called again after its argument buffer was overwritten in place answers for the old content')
+                except Exception:   # noqa  -- the flipped content may be outside the routine's domain: not judged
+                    pass
+                finally:
+                    for v, o in zip(fl, orig):
+                        v[...] = o
 
     def tick(self, n=1):
         self.evals += n
@@ -187,6 +281,83 @@ class Recorder:
         except Exception as e:   # noqa
             self.violation(sig, f'{what}: uncomparable output ({type(e).__name__}: {e}); got {_fmt(got)}')
             return False
+
+
+HYGIENE = os.environ.get('VERIF_HYGIENE', '1') != '0'
+try:
+    with open(os.path.join(ROOT, 'mc', 'hygiene_allow.json')) as _f:
+        INPLACE_OK = set(json.load(_f)['inplace_documented'])
+except Exception:   # noqa
+    INPLACE_OK = set()
+OUT_ARGS = ('out', 'output', 'alphas', 'dst')     # keyword arguments documented as caller-supplied buffers the routine writes
+
+
+def _precision():
+    try:
+        from prysm.conf import config
+        return config.precision
+    except Exception:   # noqa
+        return None
+
+
+def _set_precision(p):
+    try:
+        from prysm.conf import config
+        config.precision = 32 if p is np.float32 else 64
+    except Exception:   # noqa
+        pass
+
+
+def _same_array(a, b):
+    try:
+        if a.shape != b.shape:
+            return False
+        if a.dtype.kind in 'fc':
+            return bool(np.array_equal(a, b, equal_nan=True))
+        return bool(np.array_equal(a, b))
+    except Exception:   # noqa
+        return True
+
+
+def _result_arrays(out):
+    """plain ndarray results only (a stateful object returned by a method is expected to change later)"""
+    if isinstance(out, np.ndarray):
+        return [out] if out.size else []
+    if isinstance(out, (tuple, list)):
+        return [o for o in out if isinstance(o, np.ndarray) and o.size]
+    return []
+
+
+def _swap(v, olds, news):
+    for o, n in zip(olds, news):
+        if v is o:
+            return n
+    return v
+
+
+def _close_lists(got, want):
+    if len(got) != len(want):
+        return False
+    for g, w in zip(got, want):
+        if g.shape != w.shape:
+            return False
+        if g.dtype.kind not in 'fciub' or w.dtype.kind not in 'fciub':
+            continue
+        gn = np.isnan(g) if g.dtype.kind in 'fc' else np.zeros(g.shape, bool)
+        wn = np.isnan(w) if w.dtype.kind in 'fc' else np.zeros(w.shape, bool)
+        if not np.array_equal(gn, wn):
+            return False
+        gg = np.where(gn, 0, g)
+        ww = np.where(wn, 0, w)
+        fin = np.isfinite(gg) & np.isfinite(ww)
+        if not np.array_equal(gg[~fin], ww[~fin]):
+            return False
+        scale = float(np.max(np.abs(ww[fin]))) if fin.any() else 0.0
+        small = g.dtype in (np.float32, np.complex64) or w.dtype in (np.float32, np.complex64)
+        tol = (1e-4 if small else 1e-9) * max(scale, 1e-300)
+        if fin.any() and float(np.max(np.abs(gg[fin] - ww[fin]))) > tol:
+            return False
+    return True
 
 
 def _fmt(x):
